@@ -89,7 +89,42 @@ fn fri(args: &[String]) {
     let mut maxdeg1 = ncoef;
     for _ in 0..nlayers { maxdeg1 /= folding; }
 
+    // the same proof with a copy of its last layer appended as an additional layer (layer count byte incremented): a proof that
+    // differs in decoded content only by payload the verifier never consumes
+    let mut extra: Vec<u8> = Vec::new();
+    let (mut ev_off, mut ev_len, mut ep_off, mut ep_len) = (0usize, 0usize, 0usize, 0usize);
+    let mut extra_parses = false;
+    let mut extra_accept = false;
+    if nlayers > 0 {
+        let rd = |o: usize| u32::from_le_bytes([bytes[o], bytes[o + 1], bytes[o + 2], bytes[o + 3]]) as usize;
+        let mut o = 1usize;
+        let mut start = 0usize;
+        for _ in 0..nlayers { start = o; let vl = rd(o); o += 4 + vl; let pl = rd(o); o += 4 + pl; }
+        let end = o;
+        extra.extend_from_slice(&bytes[..end]);
+        let base = extra.len();
+        extra.extend_from_slice(&bytes[start..end]);
+        extra.extend_from_slice(&bytes[end..]);
+        extra[0] += 1;
+        let vl = rd(start);
+        ev_off = base + 4; ev_len = vl;
+        ep_off = base + 4 + vl + 4; ep_len = rd(start + 4 + vl);
+        if let Ok(p2) = FriProof::read_from(&mut SliceReader::new(&extra)) {
+            if let Ok(mut ch) = DefaultVerifierChannel::<T, PH>::new(p2, commits.iter().map(|&c| PD128(c)).collect(), n, folding) {
+                extra_parses = true;
+                let mut coin = CtrCoin::new(&[]);
+                if let Ok(v) = FriVerifier::new(&mut ch, &mut coin, options.clone(), ncoef - 1) {
+                    let q: Vec<T> = queried.iter().map(|&v| T(v)).collect();
+                    extra_accept = v.verify(&mut ch, &q, &positions).is_ok();
+                }
+            }
+        }
+    }
+
     println!("pub mod {name} {{");
+    println!("    pub const PROOF_EXTRA: [u8; {}] = {:?};", extra.len(), extra);
+    println!("    pub const EXTRA_VALUES_OFF: usize = {ev_off}; pub const EXTRA_VALUES_LEN: usize = {ev_len}; pub const EXTRA_PATHS_OFF: usize = {ep_off}; pub const EXTRA_PATHS_LEN: usize = {ep_len};");
+    println!("    // natively: the channel parses the extended proof: {extra_parses}; the verifier accepts it: {extra_accept}");
     println!("    // blowup {blowup} folding {folding} remainder_max_degree {remdeg} coefficients {ncoef} domain {n} layers {nlayers}; poly {:?}", poly);
     println!("    pub const BLOWUP: usize = {blowup}; pub const FOLDING: usize = {folding}; pub const REMDEG: usize = {remdeg};");
     println!("    pub const DOMAIN: usize = {n}; pub const MAX_DEGREE: usize = {}; pub const NLAYERS: usize = {nlayers};", ncoef - 1);
